@@ -483,8 +483,11 @@ ElemNumber::getCountMatchPattern(
         {
             const GetCachedString   theMatchPatternString(executionContext);
 
+            // The target is a literal: processing-instruction('target')
             theMatchPatternString.get() = s_piString;
+            theMatchPatternString.get().append(1, XalanUnicode::charApostrophe);
             theMatchPatternString.get().append(contextNode->getNodeName());
+            theMatchPatternString.get().append(1, XalanUnicode::charApostrophe);
             theMatchPatternString.get().append(1, XalanUnicode::charRightParenthesis);
 
             countMatchPattern = executionContext.createMatchPattern(
